@@ -65,7 +65,7 @@ func (lp *liveProc) RecordEvent(e trace.Event) {
 
 // NewLive starts one context per process, each parked before its first attempt.
 func (sys *System) NewLive() *Live {
-	l := &Live{sys: sys, globals: sys.Init.Globals}
+	l := &Live{sys: sys, globals: sys.Root.Globals}
 	for p := range sys.Procs {
 		pd := &sys.Procs[p]
 		lp := &liveProc{grant: make(chan []int), parked: make(chan struct{}, 1), done: make(chan struct{})}
@@ -139,7 +139,7 @@ func (l *Live) State() *State {
 	s := &State{Globals: l.globals}
 	for p, lp := range l.procs {
 		if !lp.started {
-			s.Locals = append(s.Locals, l.sys.Init.Locals[p])
+			s.Locals = append(s.Locals, l.sys.Root.Locals[p])
 			continue
 		}
 		s.Locals = append(s.Locals, lp.ctx.VerifLocals())
@@ -169,7 +169,7 @@ func (l *Live) Close() {
 func (sys *System) Conform(path []Move) string {
 	l := sys.NewLive()
 	defer l.Close()
-	s := sys.Init
+	s := sys.Root
 	for i, m := range path {
 		a := sys.Try(s, m.P, m.ints())
 		kind, errS := l.Step(m.P, m.ints())
